@@ -12,6 +12,12 @@ The expected codes come from the property statement / the HED specification (SID
 SIDECAR_BRACES_INVALID; type faults may also carry the library's own type codes).
   definitions  valid sidecars with a definitions column ('#' tag of the definition at depth 1, 2, 3 of its content) and uses
            of the definitions -> no error issue; one faulty definition -> DEFINITION_INVALID in that column.
+  def-expand-placeholder  value columns that use the WRITTEN-OUT form of a placeholder definition,
+           (Def-expand/Name/#, <content with its '#'>) - by construction the same annotation as Def/Name/#, i.e. exactly one
+           placeholder - at top level, nested, alone, next to a categorical column using the expanded form with a value, and
+           referenced from another column -> no error issue; the same with a second real placeholder, or with no placeholder
+           at all (expanded form with a value) -> PLACEHOLDER_INVALID; the '#' form inside a categorical entry ->
+           PLACEHOLDER_INVALID.
 """
 import copy
 import io
@@ -43,6 +49,7 @@ L_F_NESTED = "C08.fault.ref_nested"
 L_F_LOC = "C08.fault.location"
 L_DEF_VALID = "C08.valid.definitions_no_error"
 L_DEF_FAULT = "C08.defs.faulty_definition_reported"
+L_DEFX_VALID = "C08.valid.def_expand_placeholder_counts_once"   # (Def-expand/Name/#, (... # ...)) is ONE placeholder (= Def/Name/#)
 
 TYPE_CODES = {"SIDECAR_INVALID", "wrongHedDataType", "sidecarUnknownColumn", "blankValueString"}
 EXPECTED = {L_F_TYPE: TYPE_CODES, L_F_VPOUND: {"PLACEHOLDER_INVALID"}, L_F_CPOUND: {"PLACEHOLDER_INVALID"},
@@ -399,12 +406,56 @@ def def_docs(quick):
     return valid, faulty, sorted(strings)
 
 
-def check_def_valid(doc):
+def check_def_valid(doc, label=L_DEF_VALID):
     stage, payload = run_doc(json.dumps(doc))
     if stage != "ok":
         return [(L_TOTAL, False, f"{stage}: {payload}", "a list of issues, nothing raised")]
     errs = [(i["code"], i.get("ec_sidecarColumnName"), i.get("ec_sidecarKeyName")) for i in error_issues(payload)]
-    return [(L_TOTAL, True, None, None), (L_DEF_VALID, not errs, errs, "no error-severity issue")]
+    return [(L_TOTAL, True, None, None), (label, not errs, errs, "no error-severity issue")]
+
+
+def defx_docs(quick):
+    """-> (valid [(doc, meta)], faults [(clause, description, doc, involved)]): the expanded form of a '/#' definition with the
+    placeholder kept, '(Def-expand/Name/#, <content>)'.  Contents: the single-placeholder layouts of rt/c09_depth.py ('#' at
+    depth 1, 2, 3) on tags whose placeholder carries no unit (with a unit, 'Def/Name/#' itself is not individually valid -
+    see not_covered)."""
+    from rt import c09_depth as D
+    valid, faults = [], []
+    k = 0
+    for ctext, depth, layout, nhash, on_value, v in list(D.single_slot_contents()) + list(D.two_slot_contents()):
+        if v is None or "# " in ctext:
+            continue
+        k += 1
+        d1 = "(Definition/%s/#, %s)" % (DEF_NAME, ctext)
+        dx = "(Def-expand/%s/#, %s)" % (DEF_NAME, ctext)
+        dxv = "(Def-expand/%s/%s, %s)" % (DEF_NAME, v, ctext.replace("#", v))
+        meta = {"layout": layout, "hash_depths": D.depth_of_hash(ctext), "definition": d1}
+        defs = {"HED": {"d1": d1, "d2": PLAIN_DEF}}
+        variants = [
+            {"defs": defs, "val": {"HED": dx + ", Blue"}},
+            {"val": {"Description": "nested", "HED": "(Blue, (%s, Cross))" % dx}, "defs": {"HED": {"d": d1}}},
+            {"defs": {"HED": {"d1": d1}}, "cat": {"HED": {"a": dxv + ", Cross", "b": "Red"}}, "val": {"HED": dx}},
+            {"defs": defs, "val": {"HED": "Square, " + dx}, "refc": {"HED": {"r": "(Circle, {val})", "s": "Def/Plain"}}},
+            {"defs": defs, "val": {"HED": "Def/Plain, " + dx}, "val2": {"HED": "Def/%s/#" % DEF_NAME}},
+        ]
+        for j, doc in enumerate(variants):
+            if quick and (j + k) % 2 and j > 0:
+                continue
+            valid.append((doc, dict(meta, variant="defx%d" % j)))
+        bad = [
+            (L_F_VPOUND, "expanded '#' form plus a second placeholder", {"defs": defs, "val": {"HED": dx + ", Description/#"}}, ["val"]),
+            (L_F_VPOUND, "second placeholder before the expanded '#' form",
+             {"val": {"HED": "(Description/#, Blue), " + dx}, "defs": defs}, ["val"]),
+            (L_F_VPOUND, "expanded form with a value: no placeholder in a value column",
+             {"defs": defs, "val": {"HED": dxv + ", Blue"}}, ["val"]),
+            (L_F_CPOUND, "expanded '#' form in a categorical entry",
+             {"defs": defs, "cat": {"HED": {"a": dx + ", Cross", "b": "Red"}}}, ["cat"]),
+        ]
+        for j, item in enumerate(bad):
+            if quick and (j + k) % 2 and j > 0:
+                continue
+            faults.append(item)
+    return valid, faults
 
 
 def check_def_fault(doc):
@@ -433,6 +484,9 @@ def _job(job):
         elif item[0] == "valid":
             res = check_valid(item[1])
             inp = {"mode": "valid", "doc": item[1]}
+        elif item[0] == "defxvalid":
+            res = check_def_valid(item[1], L_DEFX_VALID)
+            inp = dict({"mode": item[0], "doc": item[1]}, **item[2])
         elif item[0] in ("defvalid", "deffault"):
             res = check_def_valid(item[1]) if item[0] == "defvalid" else check_def_fault(item[1])
             inp = dict({"mode": item[0], "doc": item[1]}, **item[2])
@@ -540,6 +594,15 @@ def run(w: Workload):
            f"{{reference}} (quick: every second variant); {len(dfaulty)} sidecars with one faulty definition (two '#', '##', '#' on a "
            "non-value tag, no '#', name without '/#') at every depth; documents by depth(s) of the '#': "
            f"{dict(sorted(depths.items()))}", exhaustive=False)
+    xvalid, xfaults = defx_docs(w.quick)
+    xitems = [("defxvalid", d, m) for d, m in xvalid] + [("fault", cl, desc, doc, inv) for cl, desc, doc, inv in xfaults]
+    n = _absorb(w, _par(xitems, 12), counters, "defx", xitems)
+    w.part("def-expand-placeholder", cases=n, bound=f"{len(xvalid)} valid sidecars whose value column holds '(Def-expand/Name/#, content)' "
+           "for every single-placeholder content layout ('#' at depth 1, 2, 3; Label / Age / Distance) in 5 positions (top level "
+           "next to a tag, nested at depth 2, alone next to a categorical column with the expanded valued form, referenced by "
+           f"another column, next to a second value column with Def/Name/#; quick: first variant + every second other); {len(xfaults)} "
+           "faulty ones (second real placeholder after / before the group, no placeholder at all, '#' form in a categorical entry)",
+           exhaustive=False)
     w.bounded[-1]["checks_per_clause"] = counters
     w.exhaustive = False
     w.not_covered += ["documents deeper than 3 levels or with more than 2 members per container; more than 2 columns in part 'total'",
@@ -559,7 +622,9 @@ def replay(w: Workload, case: dict):
     clause = case["clause"]
     _env()
     w.case(key="replay")
-    if inp["mode"] == "defvalid":
+    if inp["mode"] == "defxvalid":
+        res = check_def_valid(inp["doc"], L_DEFX_VALID)
+    elif inp["mode"] == "defvalid":
         res = check_def_valid(inp["doc"])
     elif inp["mode"] == "deffault":
         res = check_def_fault(inp["doc"])
